@@ -22,6 +22,7 @@ NONTRIVIAL = ('states whose word has length >= 2 and contains both a 0 and a 1 (
 
 MAXLEAF = 12
 XFULL_MAXLEN = 8          # leaves up to this length are expanded with the op set 'xfull'
+XOPERAND_MAXLEN = 3       # operand words in the extended forms
 AFTER_ALL_MAXLEN = 8      # states up to this length: len/ones/zeros of the operand are re-queried after EVERY op (longer: after every 7th op;
                           # 7 is coprime with the 24 (kind, form) pairs per operand word, so every pair is hit over the words)
 REQUERY_STRIDE = 7
@@ -239,8 +240,7 @@ XINVALID_OPERANDS = [
     ('[(0,1)]', lambda: [(0, 1)]), ('[nd[0,1]]', lambda: [np.array([0, 1])]), ('[[[0]]]', lambda: [[[0]]]),
     ("'0;1'", lambda: '0;1'), ("';'", lambda: ';'), ("'01;10'", lambda: '01;10'), ("'1;'", lambda: '1;'), ("'0.5'", lambda: '0.5'),
     ("'0 0.5'", lambda: '0 0.5'), ("'1j'", lambda: '1j'), ("'a'", lambda: 'a'), ("'01a'", lambda: '01a'), ("'0 1 2'", lambda: '0 1 2'),
-    ("'10 2'", lambda: '10 2'), ("'-1'", lambda: '-1'), ("'1 -1'", lambda: '1 -1'), ("'nan'", lambda: 'nan'), ("'1e0'", lambda: '1e0'),
-    ("'0x1'", lambda: '0x1'), ("'True'", lambda: 'True'), ("'0_1'", lambda: '0_1'), ("'\uff11'", lambda: '\uff11'),
+    ("'10 2'", lambda: '10 2'), ("'-1'", lambda: '-1'), ("'1 -1'", lambda: '1 -1'), ("'nan'", lambda: 'nan'),
     ('[None]', lambda: [None]), ("['a']", lambda: ['a']), ('object()', lambda: object()), ('int', lambda: int),
     ('2+0j', lambda: 2 + 0j), ('1.5', lambda: 1.5), ('0.5', lambda: 0.5), ('nan', lambda: float('nan')), ('np.int64(2)', lambda: np.int64(2)),
     ('np.float64(0.5)', lambda: np.float64(0.5)), ('0d(2)', lambda: np.array(2)), ('0d(0.5)', lambda: np.array(0.5)),
@@ -255,6 +255,7 @@ FREE_OPERANDS = [
     ("''", lambda: ''), ("' '", lambda: ' '), ("','", lambda: ','), ("'0\\t1'", lambda: '0\t1'), ("'0\\n1'", lambda: '0\n1'),
     ("' 01 '", lambda: ' 01 '), ("'0,,1'", lambda: '0,,1'), ("'0  1'", lambda: '0  1'), ("',01,'", lambda: ',01,'),
     ("'1.0'", lambda: '1.0'), ("'0.0 1.0'", lambda: '0.0 1.0'), ("'+1'", lambda: '+1'), ("'-0'", lambda: '-0'), ("'1+0j'", lambda: '1+0j'),
+    ("'1e0'", lambda: '1e0'), ("'0x1'", lambda: '0x1'), ("'True'", lambda: 'True'), ("'0_1'", lambda: '0_1'), ("'\uff11'", lambda: '\uff11'),
     ('range(2)', lambda: range(2)), ('range(0)', lambda: range(0)), ('bytearray([0,1])', lambda: bytearray([0, 1])),
     ("b'\\x01'", lambda: b'\x01'), ("b'01'", lambda: b'01'), ('memoryview', lambda: memoryview(bytes([0, 1]))),
     ('{0,1}', lambda: {0, 1}), ('frozenset', lambda: frozenset([1])), ('{0:1}', lambda: {0: 1}), ('generator', lambda: (i for i in (0, 1))),
@@ -272,7 +273,7 @@ NSPLIT, NSELFEMPTY = 5, 3
 
 def ops_for(mode):
     """deterministic list of op descriptors. 'full': w of length <= 4, 'deep': w of length <= 2, 'xfull' (leaves of
-    length <= 8): 'full' + every word of length <= 4 in every EXTENDED operand form + the extended refusal table + the
+    length <= 8): 'full' + every word of length <= 3 in every EXTENDED operand form + the extended refusal table + the
     operands the statement is silent on"""
     if mode in _OPS:
         return _OPS[mode]
@@ -288,10 +289,13 @@ def ops_for(mode):
             ops.append(('bad+', k))
             ops.append(('badr+', k))
     # hardening pass: programs whose second operand is derived from the first one (same object on both sides of +)
-    ops += [('split', j) for j in range(NSPLIT)] + [('+e', j) for j in range(NSELFEMPTY)] + [('e+', j) for j in range(NSELFEMPTY)]
-    ops += [('+~',), ('~+',)]
+    if mode == 'deep':
+        ops += [('split', 2), ('+e', 2), ('e+', 0), ('+~',)]
+    else:
+        ops += [('split', j) for j in range(NSPLIT)] + [('+e', j) for j in range(NSELFEMPTY)] + [('e+', j) for j in range(NSELFEMPTY)]
+        ops += [('+~',), ('~+',)]
     if mode == 'xfull':
-        for wc in words(wl):
+        for wc in words(XOPERAND_MAXLEN):
             n = wc.bit_length() - 1
             for f in forms_for(n, leaf=False, ext=True):
                 if is_ext(f):
@@ -437,11 +441,18 @@ def expr(leaf_code, leaf_form, path):
     return s
 
 
-def state_laws(a, bits, V, where):
-    """laws every sequence obeys by itself"""
+def state_laws(a, bits, V, where, order=0):
+    """laws every sequence obeys by itself.  `order` rotates which of len / ones / zeros is asked FIRST (a query may fill or
+    repair a cached attribute, so the first query on a fresh object matters): 0: len, ones, zeros; 1: ones, zeros, len;
+    2: zeros, len, ones.  Callers derive it from the op index, so every op kind meets every order."""
     n = len(bits)
     try:
-        ln, ln2, on, ze = len(a), a.len(), a.ones(), a.zeros()
+        if order % 3 == 0:
+            ln, ln2, on, ze = len(a), a.len(), a.ones(), a.zeros()
+        elif order % 3 == 1:
+            on, ze, ln, ln2 = a.ones(), a.zeros(), len(a), a.len()
+        else:
+            ze, ln, ln2, on = a.zeros(), len(a), a.len(), a.ones()
     except Exception as e:  # noqa
         V('law:ones-zeros-len', f'{where}: len/ones/zeros raised {type(e).__name__}: {e}')
         return
@@ -482,7 +493,7 @@ def expand(case):
     def a_same():
         d = a.data
         return d is a_id_data and d.dtype == np.uint8 and d.shape == (n,) and d.tobytes() == a_bytes
-    state_laws(a, bits, V, here)
+    state_laws(a, bits, V, here, order=leaf_code + len(path))
 
     succ = {}                   # key -> index of the first op producing it
     obs = []
@@ -497,7 +508,10 @@ def expand(case):
         """cached-attribute class: len/ones/zeros of the SAME operand object asked again after an op was executed on it"""
         stats['requery-after-op'] = stats.get('requery-after-op', 0) + 1
         try:
-            ok = len(a) == n and a.len() == n and a.ones() == on0 and a.zeros() == ze0
+            k = stats['requery-after-op'] % 3
+            ok = (len(a) == n and a.len() == n and a.ones() == on0 and a.zeros() == ze0) if k == 0 else \
+                 (a.ones() == on0 and a.zeros() == ze0 and len(a) == n and a.len() == n) if k == 1 else \
+                 (a.zeros() == ze0 and a.len() == n and a.ones() == on0 and len(a) == n)
         except Exception as e:  # noqa
             V('law:ones-zeros-len', f'{what}: len/ones/zeros of the operand raised {type(e).__name__} after the op')
             return
@@ -514,6 +528,13 @@ def expand(case):
             w = mk()
             left = t.endswith('r+')
             free = t.startswith('free')
+            # free operands are write-protected; refused ones only snapshotted (a write attempt on a protected buffer would
+            # raise ValueError and pass for the refusal)
+            wsnap = None
+            if isinstance(w, np.ndarray):
+                wsnap = freeze(w) if free else [(w.shape, w.dtype.str, w.tobytes())]
+            elif isinstance(w, (list, bytearray)):
+                wsnap = repr(w)
             ndleft = left and isinstance(w, np.ndarray)
             if ndleft and nd_broken:
                 stats['skipped.ndarray-left-after-failure'] = stats.get('skipped.ndarray-left-after-failure', 0) + 1
@@ -537,6 +558,8 @@ def expand(case):
                       f'{what}: no exception, returned {show(r)}')
                     nd_broken = nd_broken or ndleft
                     obs.append('A')
+            if wsnap is not None and not (unchanged(w, wsnap) if isinstance(w, np.ndarray) else repr(w) == wsnap):
+                V('operand-changed:invalid-operand', f'{what}: the refused / free operand itself was modified')
             if not a_same():
                 V('operand-changed:invalid-operand', f'{what}: left operand modified')
                 a, bits = replay(leaf_code, leaf_form, path); a_snap = freeze(a); a_id_data = a.data
@@ -595,7 +618,7 @@ def expand(case):
             if other is not None and shares(r, other):
                 V(f'alias:{opk}:shared-memory-other', f'{what}: result.data shares memory with the other operand')
             if exp is not None:
-                state_laws(r, exp, V, what)
+                state_laws(r, exp, V, what, order=oi + leaf_code + len(path))
             # algebraic laws, with the library's own == and slicing
             try:
                 if t == '+':
@@ -673,6 +696,12 @@ def leaf_case(case):
     keys = set()
     forms = forms_for(n, leaf=True, ext=True)
     cold_form = forms[code % len(forms)]
+    short = n <= AFTER_ALL_MAXLEN
+    if not short:
+        # long words: 7 of the 21 extended forms (rotating with the word code, so every form meets a third of the words)
+        xs = [f for f in forms if is_ext(f)]
+        keep = {xs[(code + 3 * i) % len(xs)] for i in range(7)} | {cold_form}
+        forms = [f for f in forms if not is_ext(f) or f in keep]
 
     def unary(a, op, what, warm):
         """one unary op on `a`; returns False if the operand was modified"""
@@ -697,20 +726,21 @@ def leaf_case(case):
         if r is a or np.shares_memory(r.data, a.data):
             V(f'alias:{OPK[op[0]]}:shared-memory', f'{what} :: {op_name(op)}: shares memory with the operand')
         if not warm and exp is not None:
-            state_laws(r, exp, V, f'{what} :: {op_name(op)} (operand never queried before)')
+            state_laws(r, exp, V, Lazy(lambda: f'{what} :: {op_name(op)} (operand never queried before)'), order=UNARY.index(op) + code)
             if op[0] == '~' and not (r.ones() == a.zeros()):
                 V('law:ones-invert', f'{what} :: ~a on a never-queried operand: ones(~a)={r.ones()} zeros(a)={a.zeros()}')
         if not unchanged(a, snap_a):
             V(f'operand-changed:{OPK[op[0]]}:self', f'{what} :: {op_name(op)}: operand modified')
             return False
-        # the same object asked again after the op
-        state_laws(a, bits, V, f'{what} after {op_name(op)}')
+        # the same object asked again after the op (long words: once per form, after the last op)
+        if short or not warm:
+            state_laws(a, bits, V, Lazy(lambda: f'{what} after {op_name(op)}'), order=UNARY.index(op) + code + 1)
         return True
 
     for form in forms:
         src = make(bits, form)
         ssnap = snap(src)
-        what = f'binary_sequence(<{form}> {src!r})'
+        what = Lazy(lambda form=form, src=src: f'binary_sequence(<{form}> {src!r})')
         try:
             a = B(src)
         except Exception as e:  # noqa
@@ -732,14 +762,30 @@ def leaf_case(case):
         keys.add(key_of(a.data))
         obs.append((form, bits_in(a), a.data.flags.c_contiguous, a.data.flags.owndata))
         if form == cold_form:
+            # accessor methods called on a fresh object BEFORE any op (they touch global numpy print options / build strings)
+            q = B(make(bits, form))
+            sq = freeze(q)
+            try:
+                acc = (repr(q), q.__str__('t'), q.sizeof(), q.type(), (q == list(bits)) is True, (q == q) is True)
+                if not (acc[4] and acc[5]):        # == is the comparison the statement's laws are written with
+                    V('law:prefix', f'{what}: a == <its own word> / a == a answered {acc[4:]}')
+            except Exception as e:  # noqa
+                V(f'raises:accessor:{type(e).__name__}', f'{what}: repr/str/sizeof/type/== raised {type(e).__name__}: {e}')
+            if not unchanged(q, sq):
+                V('operand-changed:accessor:self', f'{what}: repr/str/sizeof/type/== modified the sequence')
+            state_laws(q, bits, V, Lazy(lambda: f'{what} after repr/str/sizeof/type/=='), order=code + 1)
+            unary(q, ('~',), Lazy(lambda: f'{what} after repr/str/sizeof/type/=='), warm=False)
             for op in UNARY:
                 stats['leaf-cold-ops'] = stats.get('leaf-cold-ops', 0) + 1
                 unary(B(make(bits, form)), op, what, warm=False)
-        state_laws(a, bits, V, what)
+        state_laws(a, bits, V, what, order=code + forms.index(form))
         # unary ops from this very object
-        for op in (UNARY_EXT if is_ext(form) else UNARY):
+        for op in ((UNARY_EXT if short else ()) if is_ext(form) else UNARY):
             if not unary(a, op, what, warm=True):
                 break
+        else:
+            if not short and not is_ext(form):
+                state_laws(a, bits, V, Lazy(lambda: f'{what} after the unary ops'), order=code + forms.index(form) + 1)
     stats['leaf.layout-variants'] = max(0, len(keys) - 1)
     return res(viol=viol, obs=tuple(obs), nontrivial=(code if n >= 2 and 0 < sum(bits) < n else False), stats=stats,
                payload=sorted(keys))
@@ -758,7 +804,7 @@ def cold_case(case):
         if key not in seenk:
             seenk[key] = 1
             viol.append((key, msg))
-    for op in ops_for('deep'):
+    for oi, op in enumerate(ops_for('deep')):
         a = build_leaf(code, form)
         sa = freeze(a)
         what = Lazy(lambda op=op: f'{expr(code, form, ())} (never queried) :: {op_name(op)}')
@@ -783,12 +829,12 @@ def cold_case(case):
         if exp is not None:
             if bits_in(r) != exp:
                 V(f'model:{OPK[op[0]]}', f'{what}: got {bits_in(r)}, model {exp}')
-            state_laws(r, exp, V, what)
+            state_laws(r, exp, V, what, order=oi + code)
         if op[0] == '~' and not (r.ones() == a.zeros()):
             V('law:ones-invert', f'{what}: ones(~a)={r.ones()} zeros(a)={a.zeros()}')
         if not unchanged(a, sa):
             V(f'operand-changed:{OPK[op[0]]}:self', f'{what}: operand modified')
-        state_laws(a, bits, V, f'{what} (operand, first query after the op)')
+        state_laws(a, bits, V, f'{what} (operand, first query after the op)', order=oi + code + 1)
     return res(viol=viol, obs=(code, form, tuple(obs)), nontrivial=(code if n >= 2 and 0 < sum(bits) < n else False), stats=stats)
 
 
@@ -858,8 +904,10 @@ def _legacy_invalid():
 BAD_VALUES = [2, 3, -1, 255, 256, 257, -255, -256, 65536, 2 ** 32, 2 ** 64, 0.5, 0.25, 1e-9, 5e-324, 1 - 2 ** -53, 1 + 2 ** -52,
               1.0000001, 0.9999999, -0.5, -5e-324, -1.0, 2.0, 1e300, float('nan'), float('inf'), float('-inf'),
               1j, 0.5 + 0j, 1 + 1e-9j, 1 + 1j, -1 + 0j, complex(0, float('nan')), complex(float('nan'), 0)]
-BAD_TOKENS = ['2', '3', '-1', '0.5', '.5', '1.5', '0.25', '1e0', 'nan', 'inf', '1j', '0.5+0j', '1+1j', 'a', 'x', 'True', '0x1', '0b1',
-              '0_1', '\uff10', '\u00b2', '1/1', '[1]', "'1'", '1;']
+BAD_TOKENS = ['2', '3', '-1', '0.5', '.5', '1.5', '0.25', 'nan', 'inf', '1j', '0.5+0j', '1+1j', 'a', 'x', '\u00b2', '1/1', '[1]', "'1'", '1;']
+# tokens that some number parser reads as 0 or 1 (python's int() accepts '0_1' and fullwidth digits, float() accepts '1e0'):
+# the statement does not fix the string grammar, so these are 'free'
+FREE_TOKENS = ['1e0', 'True', '0x1', '0b1', '0_1', '\uff10', '\uff11']
 FLOAT_DT = ['float16', 'float32', 'float64', 'complex64', 'complex128']
 INT_DT = ['int8', 'int16', 'int32', 'int64', 'uint8', 'uint16', 'uint32', 'uint64']
 
@@ -906,6 +954,9 @@ def invalid_constructions():
         for ctx_label, st in (('t', t), ('0 t', '0 ' + t), ('t 1', t + ' 1'), ('0,t', '0,' + t), ('0, t, 1', '0, ' + t + ', 1'), ('01t', '01' + t),
                               ('t01', t + '01')):
             add(f'str {ctx_label} t={t!r}', ('raw', st))
+    for t in FREE_TOKENS:
+        for ctx_label, st in (('t', t), ('0 t', '0 ' + t), ('0,t', '0,' + t), ('01t', '01' + t)):
+            add(f'free str {ctx_label} t={t!r}', ('raw', st), 'free', None)
     for st in ('0;1', '01;10', '0 1;1 0', '0,1;1,0', '0, 1; 1, 0', '1;', ';1', ';', ';;', '0;1;0', '01;1', '1;01', '0 1;', ' ; ', '0;', '1 ;0'):
         add(f'str2d {st!r}', ('raw', st))
     # -- containers that are not 1-D: every small shape as ndarray (4 dtypes, zeros and ones) and as nested list / tuple
@@ -921,13 +972,15 @@ def invalid_constructions():
                      ('([0],[1,0])', ([0], [1, 0])), ('[[0],[]]', [[0], []]), ('[[],[0]]', [[], [0]]), ('[[[0],[1]],[[0]]]', [[[0], [1]], [[0]]]),
                      ('[(0,1),[1]]', [(0, 1), [1]]), ('((0,1),(1,0))', ((0, 1), (1, 0))), ('[(0,1)]', [(0, 1)]), ('([0,1],)', ([0, 1],)),
                      ('[[0],[1]]', [[0], [1]]), ('[[True],[False]]', [[True], [False]]), ('[[1.0]]', [[1.0]]), ('[[],[]]', [[], []]),
-                     ('([],)', ([],)), ('[()]', [()]), ("['01','10']", ['01', '10']), ("[[0,1],'01']", [[0, 1], '01'])):
+                     ('([],)', ([],)), ('[()]', [()]), ("[[0,1],'01']", [[0, 1], '01'])):
         add(label, ('raw', x))
     add('[nd[0,1]]', ('lazy', '[nd[0,1]]')); add('[nd[0,1],nd[1]]', ('lazy', '[nd[0,1],nd[1]]')); add('[nd[1]]', ('lazy', '[nd[1]]'))
     # -- things that are not data at all
     for label, x in (('[None,1]', [None, 1]), ('[[None]]', [[None]]), ("['a',1]", ['a', 1]), ("['']", ['']), ('[[],1]', [[], 1]),
-                     ('{}', {}), ("{'a':1}", {'a': 1})):
+                     ):
         add(label, ('raw', x))
+    for label, x in (('{}', {}), ("{'a':1}", {'a': 1}), ("['01','10']", ['01', '10'])):
+        add(f'free {label}', ('raw', x), 'free', None)
     for name in ('object()', 'lambda', 'Ellipsis', 'NotImplemented', 'int'):
         add(name, ('lazy', name))
     # -- statement silent (kind 'free')
@@ -955,10 +1008,15 @@ def invalid_construction_case(case):
     label, spec, kind, exp = case
     B = lib()[0]
     x = build_input(spec)
+    before = (x.shape, x.dtype.str, x.tobytes()) if isinstance(x, np.ndarray) else (repr(x) if isinstance(x, (list, bytearray, dict, set)) else None)
+
+    def touched():
+        now = (x.shape, x.dtype.str, x.tobytes()) if isinstance(x, np.ndarray) else (repr(x) if isinstance(x, (list, bytearray, dict, set)) else None)
+        return [('operand-changed:construct', f'binary_sequence({label}): the input container was modified')] if now != before else []
     try:
         r = B(x)
     except (ValueError, TypeError) as e:
-        return res(obs=(label, type(e).__name__), nontrivial=label)
+        return res(viol=touched(), obs=(label, type(e).__name__), nontrivial=label)
     except Exception as e:  # noqa
         return res(viol=[(f'{"free" if kind == "free" else "invalid"}-construction:wrong-exception:{type(e).__name__}',
                           f'binary_sequence({label}) raised {type(e).__name__}: {e}')], obs=(label, type(e).__name__))
@@ -970,7 +1028,9 @@ def invalid_construction_case(case):
         if exp is not None and bits_in(r) != tuple(exp):
             return res(viol=[('model:construct', f'binary_sequence({label}) accepted the input but stored {bits_in(r)}, its elements are {tuple(exp)}')],
                        obs=(label, bits_in(r)))
-        return res(obs=(label, 'accepted', bits_in(r)), nontrivial=label, stats={'free-constructions.accepted': 1})
+        if isinstance(x, np.ndarray) and np.shares_memory(r.data, x):
+            return res(viol=[('alias:construct:shared-memory', f'binary_sequence({label}): data shares memory with the input')], obs=(label, 'alias'))
+        return res(viol=touched(), obs=(label, 'accepted', bits_in(r)), nontrivial=label, stats={'free-constructions.accepted': 1})
     return res(viol=[('invalid-construction:accepted', f'binary_sequence({label}) did not raise; data={getattr(r, "data", None)!r}')],
                obs=(label, 'accepted'))
 
@@ -1598,8 +1658,9 @@ def run(ctx):
              'spellings for length 1) + unary ops from every form, len/ones/zeros asked before and after every op, and on never-queried objects; '
              '(2) BFS over expression programs: every op (a+w, w+a for w in every accepted form [4 str, 3 list/tuple, 4 ndarray, '
              'binary_sequence] of every word of length <= 4 at the first level, <= 2 deeper; ~a; 7 slices; a+a; a[:k]+a[k:], a+a[k:k], a[k:k]+a, '
-             'a+~a, ~a+a; 18 invalid operands in both orders at the first level; from the leaves of length <= 8 additionally every word of '
-             'length <= 4 in the 21 extended operand forms, 88 further operands that must be refused and 45 operands the statement is silent on) '
+             'a+~a, ~a+a (13 variants at the first level, 4 deeper); 18 invalid operands in both orders at the first level; from the leaves of length <= 8 additionally every word of '
+             f'length <= {XOPERAND_MAXLEN} in the {len(XSTR_FORMS) + len(XSEQ_FORMS)} extended operand forms, {len(XINVALID_OPERANDS)} further operands that must be refused and '
+             f'{len(FREE_OPERANDS)} operands the statement is silent on) '
              'executed on the real object rebuilt by replaying its path from the leaf, in lock-step with a '
              'tuple-of-bits model; states deduplicated by canonical form (word, layout flags of .data); '
              + ('depth 2 from every leaf of length <= 12, plus depth 4 from the leaves of length <= 6 with its own visited set, plus the '
